@@ -636,6 +636,8 @@ class WrappedTable:
         :param wrapped_field: The field to extract the information from.
         """
         self.ormatic.imported_modules.add("typing_extensions")
+        # the annotation names the type of the elements (uuid.UUID counts as a builtin-like value)
+        self.ormatic.imported_modules.add(wrapped_field.type_endpoint.__module__)
         column_name = wrapped_field.field.name
         container = Set if issubclass(wrapped_field.container_type, set) else List
         column_type = f"Mapped[{module_and_class_name(container)}[{module_and_class_name(wrapped_field.type_endpoint)}]]"
